@@ -21,6 +21,10 @@ def is_rejection(subj, exc, mode, lab, bs=1):
     msg = str(exc)
     if name == "MappingError" and mode.startswith("rows"):
         return "MappingError for feature-row candidates"
+    if name == "NotFittedError" and "cannot be used for `partial_fit` as it is unknown where it has been fitted on" in msg:
+        return "expected-error-reduction strategies with fit_clf=False need a classifier with a native partial_fit and ignore_partial_fit=False (documented NotFittedError)"
+    if name == "ValueError" and mode.startswith("rows") and "a mapping between candidates and the training dataset must exist" in msg:
+        return "sample_weight together with feature-row candidates (documented ValueError: no mapping between candidates and training data)"
     if subj.cls == "ParallelUtilityEstimationWrapper" and name == "ValueError" and "`batch_size` must be set to 1" in msg and bs > 1:
         return "ParallelUtilityEstimationWrapper supports only batch_size=1 (documented)"
     return None
